@@ -199,9 +199,18 @@ pub fn c03(ctx: &mut Ctx) {
             let fi: Vec<(I, I, I)> = frs.iter().map(|f| (f.0 as I, f.1 as I, f.2 as I)).collect();
             let li: Vec<I> = lws.iter().map(|x| *x as I).collect();
             let pi = [pen[0] as I, pen[1] as I, pen[2] as I, pen[3] as I, pen[4] as I];
+            // KF-4 class: the line width changes again after the second line (the list is not
+            // equivalent to one of at most two entries); the cost matrix is then not totally
+            // monotone and `smawk`'s rows need not be minima: the model is asked for the
+            // arrangement, its own smawk run and the costs only
+            let kf = if crate::oracle::kf4(lws) { Some("KF-4") } else { None };
             match out {
                 OfOut::Ok(lens) => {
-                    ctx.case(Op { req, real: format!("ok:{};shape=1;minimal=1;costeq=1;smawk=1;costs=1", crate::proto::enc_nats(&lens)) }, desc.clone());
+                    if kf.is_some() {
+                        ctx.case(Op { req: req.replace("|costs|", "|shapeonly|costs|"), real: format!("ok:{};smawk=1;costs=1", crate::proto::enc_nats(&lens)) }, desc.clone());
+                    } else {
+                        ctx.case(Op { req, real: format!("ok:{};shape=1;minimal=1;costeq=1;smawk=1;costs=1", crate::proto::enc_nats(&lens)) }, desc.clone());
+                    }
                     let c = arrangement_cost(&fi, &li, pi, &lens);
                     let m = min_cost(&fi, &li, pi);
                     if frs.len() <= 11 {
@@ -211,14 +220,14 @@ pub fn c03(ctx: &mut Ctx) {
                         }
                     }
                     if c != m {
-                        ctx.fail("optimal-fit returns a minimum-cost arrangement", format!("{} = line lengths {:?} with cost {}, minimum is {}", desc, lens, c, m), None);
+                        ctx.fail("optimal-fit returns a minimum-cost arrangement", format!("{} = line lengths {:?} with cost {}, minimum is {}", desc, lens, c, m), kf);
                     } else {
                         ctx.oracle_ok();
                     }
                     // never worse than first-fit
                     if let (_, Some(ff)) = op_ff(frs, lws) {
                         if c > arrangement_cost(&fi, &li, pi, &ff) {
-                            ctx.fail("cost never exceeds that of the first-fit arrangement", desc.clone(), None);
+                            ctx.fail("cost never exceeds that of the first-fit arrangement", desc.clone(), kf);
                         }
                     }
                     if lens.len() >= 2 {
@@ -275,6 +284,21 @@ pub fn c03(ctx: &mut Ctx) {
             let pen = gen::penalties(&mut ctx.rng);
             ctx.count(if big { "large_integers" } else { "small_integers" });
             ctx.count(&format!("line_widths_{}", lwv.len()));
+            run(ctx, &frs, &lwv, pen);
+        }
+        // line-width lists of three to five entries over two distinct widths ("at most two distinct
+        // line widths" does not say "at most two entries"): the width of line k is entry k, the
+        // last entry from there on — code that keeps "the first" and "the rest" apart by position
+        // 0 / 1 differs only here. The Lean theorems cover lists of one or two entries; on longer
+        // lists the property predicate and the bit-for-bit comparison of the costs decide.
+        for _ in 0..ctx.n(12000, 300_000) {
+            let frs = c03_frags(&mut ctx.rng, false, 9);
+            let a = (3 + ctx.rng.below(30)) as f64;
+            let b = (3 + ctx.rng.below(30)) as f64;
+            let n = 3 + ctx.rng.below(3);
+            let lwv: Vec<f64> = (0..n).map(|_| if ctx.rng.chance(1, 2) { a } else { b }).collect();
+            let pen = gen::penalties(&mut ctx.rng);
+            ctx.count("line_widths_3_to_5_entries_two_values");
             run(ctx, &frs, &lwv, pen);
         }
         // boundary of the short-last-line test `line_width < target / fraction`: the last line is one
